@@ -696,6 +696,8 @@ type MockSigner struct {
 	Outcomes []string
 	Humans   []string
 	Requests []*proto.SSHCertificateSigningRequest
+	// decoy: another regular handler of the process (SessionSpec.Decoy)
+	decoy gensign.Handler
 }
 
 func (m *MockSigner) issue(pub ssh.PublicKey, req *proto.SSHCertificateSigningRequest) *ssh.Certificate {
@@ -738,6 +740,12 @@ func (m *MockSigner) gScert(pk ssh.PublicKey) string {
 }
 
 func (m *MockSigner) Sign(ctx context.Context, req *proto.SSHCertificateSigningRequest) ([]ssh.PublicKey, []string, error) {
+	if m.decoy != nil {
+		// another handler of the process prepares a request of its own while this one is with the CA
+		core.Guard(func() {
+			_, _ = m.decoy.Generate(Params("NONS", "root", "decoy-user", "decoy-host", "192.0.2.99", "decoy-transaction", false, 1, false))
+		})
+	}
 	n := m.calls
 	m.calls++
 	m.Requests = append(m.Requests, req)
@@ -1145,6 +1153,11 @@ type SessionSpec struct {
 	// Reuse keeps the handler objects and the connection across runs (as long
 	// as the connection is alive); otherwise every run builds new ones.
 	Reuse bool
+	// Decoy: a second, unrelated regular handler lives in the same process - built after the session's handlers, with its
+	// own registered-key directory (every login name registered to the pool's last user key), a validity of one minute,
+	// its own label and its own agent.  It generates a request for another login name in the middle of every signer call
+	// of the session.  None of this is the session's business: its handlers keep their own directory, validity and requests.
+	Decoy bool
 }
 
 // RunResult is what one run showed.
@@ -1182,6 +1195,8 @@ type Session struct {
 	KeysG    []uint64
 	BuildErr error
 	curDir   []DirEntry // the directory as last written
+	decoy    gensign.Handler
+	decoyDir string
 	// per run: the parameters csr.NewReqParam derived from the wire (nil when the run was given parameters directly)
 	wireParams []*csr.ReqParam
 }
@@ -1274,6 +1289,32 @@ func NewRegularLabel(dir string, validity *uint64, keyids [][2]string, label str
 		return nil, err
 	}
 	return regular.NewHandler(gc, conn)
+}
+
+// buildDecoy: see SessionSpec.Decoy.
+func (s *Session) buildDecoy(pool *Pool) error {
+	if s.decoyDir == "" {
+		d, err := os.MkdirTemp("", "verif-decoy-keys-")
+		if err != nil {
+			return err
+		}
+		s.decoyDir = d
+		k := pool.Users[len(pool.Users)-1]
+		for _, n := range append(append([]string{}, LogNames...), "root") {
+			if err := os.WriteFile(filepath.Join(d, n+".pub"), ssh.MarshalAuthorizedKey(k.Pub), 0o644); err != nil {
+				return err
+			}
+		}
+	}
+	c1, c2 := net.Pipe()
+	go agent.ServeAgent(agent.NewKeyring(), c2)
+	one := uint64(60)
+	h, err := NewRegularLabel(s.decoyDir, &one, [][2]string{{"default", "decoy-slot"}, {"rsa", "decoy-slot"}}, "decoy", c1)
+	if err != nil {
+		return fmt.Errorf("decoy NewHandler: %v", err)
+	}
+	s.decoy = h
+	return nil
 }
 
 func (s *Session) gDir(entries []DirEntry) string {
@@ -1466,6 +1507,12 @@ func Execute(pool *Pool, spec SessionSpec, rng *mrand.Rand) *Session {
 				}
 				live.handlers = append(live.handlers, h)
 			}
+			if spec.Decoy {
+				if err := s.buildDecoy(pool); err != nil {
+					s.BuildErr = err
+					return s
+				}
+			}
 		}
 		dirG := "None"
 		if rs.Dir != nil || rs.DirSet {
@@ -1477,7 +1524,7 @@ func Execute(pool *Pool, spec SessionSpec, rng *mrand.Rand) *Session {
 			dirG = "(Some " + s.gDir(rs.Dir) + ")"
 		}
 		s.Agent.BeginRun(rec, rs.Beh, rs.Faults, live.srvConn)
-		signer := &MockSigner{ids: s.ids, pool: pool, rec: rec, Script: rs.Signer}
+		signer := &MockSigner{ids: s.ids, pool: pool, rec: rec, Script: rs.Signer, decoy: s.decoy}
 		var handlers []gensign.Handler
 		csrNo := 0
 		for i, hs := range rs.Handlers {
